@@ -59,7 +59,7 @@ def run(chk):
     chk.log(f"{len(cases)} cases ({nvec} std vectors, {len(schemas)} schemas); implementation-side failures: {len(fails)}")
     chk.coverage["traces_validated_against_impl"] = len(cases)
     mism = []
-    if broken is None:
+    if broken is None or chk.corr_buildable(["Corr/Serde.vo"]):
         try:
             mism = common.run_cases("Serde", cases)
         except common.CoqError as e:
